@@ -220,6 +220,21 @@ pub fn run_to_string(input: &str) -> Outcome {
         let a = strip_str(input).to_string();
         let b = format!("{}", strip_str(input));
         assert_eq!(a, b);
+        // a partly consumed iterator renders the REST (Display does not exhaust it, and starts where the iterator stands - which
+        // may be inside a sequence): pieces taken so far + rendering of the rest = the whole
+        for k in 1..=3usize {
+            let mut it = strip_str(input);
+            let mut head = String::new();
+            for _ in 0..k {
+                match it.next() {
+                    Some(p) => head.push_str(p),
+                    None => break,
+                }
+            }
+            let rest = it.to_string();
+            assert_eq!(format!("{head}{rest}"), a, "pieces + rendering of the rest differ from the whole");
+            assert_eq!(format!("{it}"), rest);
+        }
         a.into_bytes()
     })) {
         Ok(v) => Outcome::Bytes(v),
